@@ -166,7 +166,14 @@ def oracle(case, rec):
                 continue
             for pt in case["points"]:
                 v = sympy.N(d.subs(_subs_map(d.free_symbols, m, pt)), 30)
+                # scale: the terms the definition adds up (rate x magnitude per transition end), not the component itself,
+                # whose big terms may cancel and leave only the eps-sized residue of float coefficients
+                fo_ = ir.FloatOps()
+                env_ = ir.make_env(m, pt["x"], pt["t"], pt["theta"], fo_, None)
                 scale = 1 + abs(sympy.N(eq0[i].subs(_subs_map(eq0[i].free_symbols, m, pt)), 30))
+                for ev_ in m["events"]:
+                    scale += 2 * abs(float(ir.evaluate(ev_["rate"], env_, fo_))) * sum(
+                        abs(float(ir.evaluate(ir.mag_expr(tr_["mag"]), env_, fo_))) for tr_ in ev_["trans"])
                 if abs(v) > 1e-12 * scale:
                     raise PropertyViolation("C12/symbolic/" + name, "d%s/dt of the %s differs from the baseline by %s" % (
                         ir.state_names(m)[i], name, d), case)
@@ -191,7 +198,12 @@ def oracle(case, rec):
         pt = case["points"][0]
         base.parameters = pt["theta"]
         ref = ir.reference_float(m, pt["x"], pt["t"], pt["theta"])
-        cmp(arr(base.ode(pt["x"], pt["t"]), (n_s,), "ode", "C12/ode", case), ref["f"], "baseline ode vs abstract model", "C12/baseline-vs-ir", case, 1e-9)
+        # (size of the terms summed into the reference: contributions of different events may cancel, see C01)
+        tf_ = float(np.abs(ref["pure"]).max()) if n_s else 0.0
+        if n_e:
+            tf_ += float(np.abs(ref["V"]).dot(np.abs(ref["rates"])).max())
+        cmp(arr(base.ode(pt["x"], pt["t"]), (n_s,), "ode", "C12/ode", case), ref["f"], "baseline ode vs abstract model", "C12/baseline-vs-ir", case, 1e-9,
+            terms=25 * tf_)
     has_birth = any(t["kind"] == "B" for e in m["events"] for t in e["trans"])
     if n_e >= 3 and len(set(case["routes"])) >= 2 and has_birth:
         rec.mark_nontrivial({"m": m, "r": case["routes"], "p": case["perm"]},
